@@ -31,11 +31,14 @@ extern int mpt_stream_dispatch(MPT_STRUCT(stream) *srm, int (*cmd)(void *, const
 	
 	/* use existing or new message */
 	if (srm->_rd._state.data.msg < 0) {
+		size_t curr = (size_t) -1;
 		ret = mpt_queue_recv(&srm->_rd);
-		/* decoder needs space on full input buffer */
-		if (ret == MPT_ERROR(MissingBuffer)
+		/* decoder needs space on full input buffer: enlarge while decoding makes progress */
+		while (ret == MPT_ERROR(MissingBuffer)
+		    && curr != srm->_rd._state.curr
 		    && (mpt_stream_flags(&srm->_info) & (MPT_STREAMFLAG(ReadBuf) | MPT_STREAMFLAG(ReadMap))) == MPT_STREAMFLAG(ReadBuf)
 		    && mpt_queue_prepare(&srm->_rd.data, 64)) {
+			curr = srm->_rd._state.curr;
 			ret = mpt_queue_recv(&srm->_rd);
 		}
 		if (ret < 0) {
